@@ -30,6 +30,11 @@ meta2 = {
     "checks_fired": ev.get("checks_fired"),
     "caught": bool(ev.get("checks_fired")),
 }
+if "--repo-only" in extra and os.path.exists(os.path.join(dst, "meta.json")):
+    old = json.load(open(os.path.join(dst, "meta.json")))
+    old["checks_fired"] = ev.get("checks_fired")
+    old["caught"] = bool(ev.get("checks_fired"))
+    meta2 = old
 json.dump(meta2, open(os.path.join(dst, "meta.json"), "w"), indent=1)
 print(name, "caught" if meta2["caught"] else "MISSED", {k: [l.split("  ")[1] for l in v["lines"] if "  " in l] for k, v in (ev.get("checks_fired") or {}).items()},
       "demo", ev.get("demo_clean_rc"), ev.get("demo_patched_rc"), ev.get("tests", ""))
